@@ -1125,11 +1125,23 @@ fn check_stderr_preset(case: &Case, ctx: &mut Ctx) -> Option<Violation> {
         return None;
     }
     ctx.stats.nontrivial = true;
+    // Whether a diagnostic that cannot be written fails the run is not settled by the
+    // property (the pinned tree fails it). What is settled: status 0 means the rows are all
+    // there, and no way of failing may take the form of a success.
     if f.status == Some(0) && r.status == Some(0) {
-        return viol(
-            "C20.exit-fail",
-            format!("{} bytes of diagnostics could not be written to a {kind:?} stderr but the exit status is 0", f.err.len()),
-        );
+        ctx.stats.probe("diagnostics lost to a failing stderr, run reported success");
+        if r.out != f.out {
+            return viol(
+                "C20.no-silent-loss",
+                format!(
+                    "{} bytes of diagnostics could not be written to a {kind:?} stderr, the exit status is 0, but standard output is not the fault-free output: {} vs {}",
+                    f.err.len(),
+                    show(&r.out),
+                    show(&f.out)
+                ),
+            );
+        }
+        return None;
     }
     if class != Class::Buffering && !is_prefix(&r.out, &f.out) {
         return viol(
